@@ -1,21 +1,36 @@
 // scratch probes against the real API (no harness model in the loop)
 use automerge::transaction::Transactable;
 use automerge::*;
+use std::collections::HashMap;
 
 fn main() {
-    // a string that exists only as a *deleted* / overwritten value, or inside a deleted object
+    // init_root_from_hydrate on a document that already has a key
+    let mut a = AutoCommit::new();
+    let l = a.put_object(ROOT, "l", ObjType::List).unwrap();
+    a.insert(&l, 0, 1).unwrap();
+    let m: HashMap<String, hydrate::Value> = [("r0".to_string(), hydrate::Value::Scalar(ScalarValue::Int(102))), ("r1".to_string(), hydrate::Value::Scalar(ScalarValue::Str("x".into())))].into_iter().collect();
+    let r = a.init_root_from_hydrate(&hydrate::Map::from(m.clone()));
+    println!("init_root_from_hydrate (pending tx) -> {r:?}; keys = {:?}", a.keys(ROOT).collect::<Vec<_>>());
+    let mut a2 = AutoCommit::new();
+    let l = a2.put_object(ROOT, "l", ObjType::List).unwrap();
+    a2.insert(&l, 0, 1).unwrap();
+    a2.commit();
+    let r = a2.init_root_from_hydrate(&hydrate::Map::from(m.clone()));
+    println!("init_root_from_hydrate (after commit) -> {r:?}; keys = {:?}", a2.keys(ROOT).collect::<Vec<_>>());
+    let mut a3 = AutoCommit::new();
+    let r = a3.init_root_from_hydrate(&hydrate::Map::from(m));
+    println!("init_root_from_hydrate (empty doc) -> {r:?}; keys = {:?}", a3.keys(ROOT).collect::<Vec<_>>());
+
+    // update_object on a list
     let mut d = AutoCommit::new();
-    let m = d.put_object(ROOT, "m", ObjType::Map).unwrap();
-    d.put(&m, "s", "inside").unwrap();
+    let l = d.put_object(ROOT, "l", ObjType::List).unwrap();
+    d.insert(&l, 0, 1).unwrap();
+    d.insert(&l, 1, 2).unwrap();
     d.commit();
-    d.delete(ROOT, "m").unwrap(); // the map (and its string) is no longer reachable
-    d.commit();
-    let bytes = d.save();
-    let mut plain = AutoCommit::load(&bytes).unwrap();
-    let mut mig = AutoCommit::load_with_options(&bytes, LoadOptions::new().migrate_strings(StringMigration::ConvertToText)).unwrap();
-    println!("plain heads {:?}", plain.get_heads());
-    println!("mig   heads {:?}", mig.get_heads());
-    for c in mig.get_changes(&plain.get_heads()) {
-        println!("added change: {:#?}", c.decode().operations);
-    }
+    let v = hydrate::Value::List(hydrate::List::from(vec![hydrate::Value::Scalar(ScalarValue::Str("only".into()))]));
+    let r = d.update_object(&l, &v);
+    println!("update_object(list [1,2] -> [only]) -> {r:?}; list = {:?}", d.hydrate(&l, None));
+    let v = hydrate::Value::List(hydrate::List::from(vec![]));
+    let r = d.update_object(&l, &v);
+    println!("update_object(list -> []) -> {r:?}; list = {:?}", d.hydrate(&l, None));
 }
